@@ -238,7 +238,7 @@ def run_case(spec):
             sib.stopTest(t2)
             if op["kind"] in H.BAD:
                 bad = bad_strict = True
-                if ff:
+                if spec["failfast"] == "before":     # the shared target itself is failfast; a flag set on the other forwarder is not the sibling's
                     latched = True
         else:
             continue
